@@ -35,7 +35,7 @@ file; `toMarrow_readable` carries exactly the hypothesis of `C03_wfS'`, `Safe âˆ
                       reader (`vlen`), only decodes to valid UTF-8
   toMarrow_readAny    reading back what was built gives the documented value of the input: `readAny arrs[j] i` is the
                       `toD` rendering of field `j` of `interpRow ext fields rows[i]` â€” NO reader-side hypothesis, every
-                      readable type (`hsize` instead of the former `hphys` / `physFreeDT`)
+                      readable type (the size condition is `hsize`, on schema and number of records)
   toMarrow_readRecord the record-level form through `Access.new` / the root struct reader (`Roundtrip.readRecord .any`)
   toMarrow_readAny_of_physical / toMarrow_readRecord_of_physical   the same with `Read.physical` of the arrays as an explicit
                       precondition instead of `hsize` (complete statements; used where `physical` is obtained otherwise)
